@@ -130,6 +130,8 @@ def main():
         u = bool(k % 2)
         # baseline pair of the mapped kernel: a driver-side dimension on top of the session configuration
         c = dict(c, base=(("lda", "gga", "ssos")[(k // 2) % 3] if c["mix"] == "libxc2" else ("lda", "gga", "damp" if (c["sl"] == "npa" and c["nldf"] != "none") else "gga", "chachiyo")[(k // 2) % 4]))
+        if k % 3 == 0:
+            c = dict(c, fl="rich")        # composite feature transforms with repeated argument indices (driver-side dimension)
         jobs.append({"id": k, "cfg": c, "seed": ck.seed * 1000 + k, "unrestricted": u, "mol": "OH" if u else "H2O",
                      "basis": ("cc-pvdz" if k % 4 == 0 else "sto-3g") if quick else ("cc-pvdz", "sto-3g", "6-31g*", "sto-3g", "6-31g")[k % 5], "ndir": 2})
     ck.log("replaying %d configurations end to end" % len(jobs))
@@ -145,7 +147,7 @@ def main():
         for v in res["viol"]:
             ck.violation(v["site"], v["detail"], replay={"job": job})
         if res["proj"] is not None:
-            exp = bycfg[repr(sorted((k_, v_) for k_, v_ in c.items() if k_ != "base"))][1]
+            exp = bycfg[repr(sorted((k_, v_) for k_, v_ in c.items() if k_ not in ("base", "fl")))][1]
             for k_ in ("integrator", "grids", "xc"):
                 if res["proj"][k_] != exp[k_]:
                     ck.violation("projection:%s" % k_, {"cfg": c, "impl": res["proj"][k_], "spec": exp[k_]}, replay={"job": job})
